@@ -58,17 +58,17 @@ theorem count_sum : ∀ (fl : List Bool), countF fl + countT fl = fl.length
   | f :: fs => by cases f <;> simp [countF, countT] <;> have := count_sum fs <;> omega
 
 /-- non-strict rows never make `normalizeAll` fail. -/
-theorem normalizeAll_ok (tol : Ext K) : ∀ (rows : List (LinRow (Ext K))) (total sl su : Nat),
-    (∀ r ∈ rows, r.cmp = .le ∨ r.cmp = .ge ∨ r.cmp = .eq) → ∃ res, normalizeAll tol total sl su rows = .ok res
+theorem normalizeAll_ok : ∀ (rows : List (LinRow (Ext K))) (total sl su : Nat),
+    (∀ r ∈ rows, r.cmp = .le ∨ r.cmp = .ge ∨ r.cmp = .eq) → ∃ res, normalizeAll total sl su rows = .ok res
   | [], total, sl, su, _ => by simp [normalizeAll]
   | r :: rs, total, sl, su, h => by
     have hrs : ∀ r' ∈ rs, r'.cmp = .le ∨ r'.cmp = .ge ∨ r'.cmp = .eq := fun r' h' => h r' (List.mem_cons_of_mem _ h')
     rcases h r (by simp) with hc | hc | hc
-    · obtain ⟨res, hres⟩ := normalizeAll_ok tol rs (total+1) (sl+1) su hrs
+    · obtain ⟨res, hres⟩ := normalizeAll_ok rs (total+1) (sl+1) su hrs
       simp [normalizeAll, hc, hres]
-    · obtain ⟨res, hres⟩ := normalizeAll_ok tol rs (total+1) sl (su+1) hrs
+    · obtain ⟨res, hres⟩ := normalizeAll_ok rs (total+1) sl (su+1) hrs
       simp [normalizeAll, hc, hres]
-    · obtain ⟨res, hres⟩ := normalizeAll_ok tol rs total sl su hrs
+    · obtain ⟨res, hres⟩ := normalizeAll_ok rs total sl su hrs
       simp [normalizeAll, hc, hres]
 
 /-- every bound row of the model is a well-formed row. -/
